@@ -305,6 +305,11 @@ def main():
   nskel = len(items) - nwit
   for i in range(nrand):
     items.append((len(items), progen.random_program(a.seed * 1000003 + i, size=2 + (i % 5), avoid=avoid), 6, 32))
+  # an extra block: programs in which an inner try raises an exception that only an ENCLOSING try handles (the
+  # definitions current at the raise must reach the outer handler), opt-in family 'outerraise' of progen
+  nouter = nrand // 4
+  for i in range(nouter):
+    items.append((len(items), progen.random_program(a.seed * 9000011 + i, size=2 + (i % 4), avoid=avoid, features=('outerraise',)), 6, 32))
   runs = checked = free = dead = nontrivial = errors = 0
   best = {}        # kind:sig -> failure with the smallest program
   counts, cov = {}, {}
